@@ -170,3 +170,55 @@ func VerifC02TwoCascades() {
 		zz.Assert(fin2 == 1, "C02.finish-notification-exactly-once")
 	}
 }
+
+// VerifC02NestedWait: "it does return whenever the actions terminate and a worker is available": N outer events are added back
+// to back (non-waiting) to a pool of N+1 workers; every outer action adds an inner event WITH wait semantics (a nested wait on
+// a worker) whose rule optionally fails; after quiescence every cascade has finished, every action ran once and the inner
+// failure is reported in the inner cascade only.
+func VerifC02NestedWait() {
+	n := zz.Param("N", 2)
+	p := NewProcessor(n + 1)
+	outerRan, innerRan := 0, 0
+	innerFails := zz.Bool("innerFails")
+	var innerErrs []int
+	p.AddRule(&Rule{Name: "outer", KindMatch: []string{"o"}, ScopeMatch: []string{},
+		Action: func(p Processor, m Monitor, e *Event, tid uint64) error {
+			im, err := p.AddEventAndWait(NewEvent("inner", []string{"i"}, nil), nil)
+			if err == nil && im != nil {
+				innerErrs = append(innerErrs, len(im.(*RootMonitor).AllErrors()))
+			}
+			outerRan++
+			return nil
+		}})
+	p.AddRule(&Rule{Name: "inner", KindMatch: []string{"i"}, ScopeMatch: []string{},
+		Action: func(p Processor, m Monitor, e *Event, tid uint64) error {
+			innerRan++
+			if innerFails {
+				return errors.New("inner failed")
+			}
+			return nil
+		}})
+	zz.Schedule(zz.Param("P", 1))
+	p.Start()
+	mons := make([]*RootMonitor, n)
+	for i := 0; i < n; i++ {
+		mons[i] = p.NewRootMonitor(nil, nil)
+		p.AddEvent(NewEvent("outer", []string{"o"}, nil), mons[i])
+	}
+	zz.Quiesce()
+	zz.Reach("quiescent")
+	zz.Assert(outerRan == n && innerRan == n, "C02.every-action-of-the-cascade-ran")
+	for i := 0; i < n; i++ {
+		zz.Assert(mons[i].IsFinished(), "C02.waiting-returns-and-every-monitor-ends-finished")
+		if mons[i].IsFinished() {
+			zz.Assert(len(mons[i].AllErrors()) == 0, "C02.nothing-belonging-to-another-cascade")
+		}
+	}
+	want := 0
+	if innerFails {
+		want = 1
+	}
+	for _, k := range innerErrs {
+		zz.Assert(k == want, "C02.one-error-entry-per-failing-event")
+	}
+}
